@@ -143,9 +143,11 @@ def c18(ctx):
 @check("C03")
 def c03(ctx):
     if ctx.quick:
-        consts = {"PSets": "{1, 2, 3, 4, 5, 6, 7}", "Angles": "{0, 1, 5, 10}"}
+        # (0 and 6: the quarter turns 0 and 180 degrees - with whole turns added by the replay, model angles such as
+        #  -3 pi; the others generic angles of three quadrants)
+        consts = {"PSets": "{1, 2, 3, 4, 5, 6, 7}", "Angles": "{0, 1, 5, 6, 10}"}
     else:
-        consts = {"PSets": "{1, 2, 3, 4, 5, 6, 7}", "Angles": "{0, 1, 3, 5, 8, 10}"}
+        consts = {"PSets": "{1, 2, 3, 4, 5, 6, 7}", "Angles": "{0, 1, 3, 5, 6, 8, 10}"}
     g = tlc(ctx, "Gen_Chain", constants=consts, workers=8, xmx="12g")
     lines = tlc_json_lines(g["out"], "chain")
     if not lines:
@@ -206,7 +208,7 @@ def c09(ctx):
     for v in sviols:
         e = sev[v["l"] - 1]
         for c in v["clause"]:
-            if c in ("C11:forward-differs-from-stack", "C11:link-poses-differ-from-stack"):
+            if c in ("C11:forward-differs-from-stack", "C11:link-poses-differ-from-stack", "C11:answer-misses-pose"):
                 ctx.violation("C09:shape:%s:%s" % (c.split(":", 1)[1], e.get("ctor")), "shape event #%d %s" % (v["l"], json.dumps(e)[:600]), e)
     ctx.evaluations += len(sev)
     ctx.exhaustive = True
